@@ -305,6 +305,17 @@ func (c *Conn) closeNoNotify(t xmlstream.Encoder) error {
 
 	c.handler.rmStream(c.stanzaWriter.sid)
 
+	// A Write or Flush that is in progress owns the write buffer and may be
+	// waiting for an acknowledgment that only our caller, the goroutine
+	// processing input, can deliver: we can neither wait for it nor touch the
+	// buffer (its packets would be numbered and written twice).
+	// What it has not delivered yet is lost, the peer has closed the stream.
+	if !c.writeLock.TryLock() {
+		close(c.readReady)
+		return nil
+	}
+	defer c.writeLock.Unlock()
+
 	// Flush any remaining data to be written.
 	err := c.flush(t)
 	if err != nil {
